@@ -239,6 +239,29 @@ def _decl_init(fn, varid):
     return cache.get(varid)
 
 
+def _decl_facts(fn, st, n):
+    """`T v = a + b - c ...;` with three or more variables: the zone cannot hold the definition, the general fact set can
+    (v - L <= 0 and L - v <= 0); the facts die with the first write of one of their variables (kill_facts)."""
+    if n['k'] != 'DeclStmt' or len(n.get('decls', [])) != 1 or 'init' not in n['decls'][0]:
+        return
+    d = n['decls'][0]
+    lv = fn.locals.get(d['var'])
+    if lv is None or lv['type'] not in zone.INT_TYPES:
+        return
+    if zone.linear(fn, fn.nodes[d['init']]) is not None:
+        return
+    L = linform(fn, fn.nodes[d['init']])
+    v = ('v', d['var'])
+    if L is None or v in L:
+        return
+    if len([k for k in L if k != 1 and L[k] != 0]) < 2:
+        return
+    up = dict(L)
+    up[v] = up.get(v, 0) - 1                      # L - v <= 0
+    lo = {k: -c for k, c in up.items()}           # v - L <= 0
+    st.facts = st.facts | frozenset([frozenset(up.items()), frozenset(lo.items())])
+
+
 def analyse(fn, entry, post=None):
     """Returns {(block id, element index): State holding BEFORE that element} and {block id: State at block exit}."""
     if not isinstance(entry, State):
@@ -339,6 +362,7 @@ def analyse(fn, entry, post=None):
                 kill_facts(st, fn.nodes[e])
                 zone.step(fn, st.d, fn.nodes[e])
                 _cong_step(fn, st, fn.nodes[e])
+                _decl_facts(fn, st, fn.nodes[e])
                 if post is not None:
                     post(fn, st, fn.nodes[e])
             elif isinstance(e, dict) and 'decl' in e:
